@@ -550,6 +550,18 @@ def identifier(expression: exp.Expression) -> exp.Expression:
     return expression
 
 
+def dollar_quoted_string(expression: exp.Expression) -> exp.Expression:
+    """Convert a $$dollar-quoted$$ string to a plain string literal with the same content.
+
+    sqlglot renders a RawString by doubling its backslashes, which is only right for targets that unescape them.
+    DuckDB does not, so select $$a\\b$$ would return two backslashes.
+    """
+    if isinstance(expression, exp.RawString):
+        return exp.Literal.string(expression.this)
+
+    return expression
+
+
 def indices_to_json_extract(expression: exp.Expression) -> exp.Expression:
     """Convert indices on objects and arrays to json_extract.
 
